@@ -99,7 +99,7 @@ def mustfail(I):
 
 
 def _known_inputs(v):
-    return {"nul": bool(v.get("nul"))}
+    return {"nul": bool(v.get("nul")), "huge": bool(v.get("huge"))}
 
 
 FUZZ = Bounded(
